@@ -627,8 +627,21 @@ class Share:
                 # They might be asking for a segment number that is beyond
                 # what we guess the file contains, but _desire_block_hashes
                 # and _desire_data will tolerate that.
-                self._desire_block_hashes(desire, o, segnum)
-                self._desire_data(desire, o, r, segnum, segsize)
+                seg_desire = desire
+                if not self._node.have_UEB:
+                    # Until the UEB tells us the real segment size and
+                    # number of segments, the hash-tree positions and the
+                    # block offset computed for this segnum are only guesses
+                    # (the segnum itself may be out of range, which
+                    # _get_satisfaction reports as BADSEGNUM once the UEB is
+                    # here). We may ask for them, but failing to get them
+                    # must not make us abandon a perfectly good share (see
+                    # the DataUnavailable check in _do_loop): treat them as
+                    # merely wanted. They become needed on the first pass
+                    # after the UEB has arrived.
+                    seg_desire = (want_it, want_it, gotta_gotta_have_it)
+                self._desire_block_hashes(seg_desire, o, segnum)
+                self._desire_data(seg_desire, o, r, segnum, segsize)
 
         log.msg("end _desire: want_it=%s need_it=%s gotta=%s"
                 % (want_it.dump(), need_it.dump(), gotta_gotta_have_it.dump()),
@@ -739,7 +752,12 @@ class Share:
         need_it.add(blockstart, blocklen)
 
     def _send_requests(self, desired):
-        ask = desired - self._pending - self._received.get_spans()
+        # never ask again for bytes the server has already told us it does not
+        # have (a short read marks them in _unavailable): the answer cannot
+        # change, and re-asking on every pass of the loop is a request storm
+        # for as long as some other answer is outstanding
+        ask = (desired - self._pending - self._received.get_spans()
+               - self._unavailable)
         log.msg("%s._send_requests, desired=%s, pending=%s, ask=%s" %
                 (repr(self), desired.dump(), self._pending.dump(), ask.dump()),
                 level=log.NOISY, parent=self._lp, umid="E94CVA")
